@@ -490,7 +490,7 @@ pub async fn write_http_response(
     )
     .into_bytes();
     if response.content_type != ContentType::None {
-        if response.headers.get_only("content-type").is_some() {
+        if !response.headers.get_all("content-type").is_empty() {
             return Err(HttpError::DuplicateContentTypeHeader);
         }
         write!(
@@ -503,15 +503,16 @@ pub async fn write_http_response(
     if close {
         write!(head_bytes, "connection: close\r\n",).unwrap();
     }
+    // The message must have exactly one framing header, the one we add.
+    if !response.headers.get_all("content-length").is_empty() {
+        return Err(HttpError::DuplicateContentLengthHeader);
+    }
+    if !response.headers.get_all("transfer-encoding").is_empty() {
+        return Err(HttpError::DuplicateTransferEncodingHeader);
+    }
     if let Some(body_len) = response.body.len() {
-        if response.headers.get_only("content-length").is_some() {
-            return Err(HttpError::DuplicateContentLengthHeader);
-        }
         write!(head_bytes, "content-length: {body_len}\r\n").unwrap();
     } else {
-        if response.headers.get_only("transfer-encoding").is_some() {
-            return Err(HttpError::DuplicateTransferEncodingHeader);
-        }
         write!(head_bytes, "transfer-encoding: chunked\r\n").unwrap();
     }
     for header in &response.headers {
